@@ -307,14 +307,55 @@ func (c *Check) manifestVersionRule(rule string) {
 	run := l.Func("provider/manifest", "manager", "run")
 	{
 		ok := false
+		var appends []*ssa.Store
 		for _, g := range append([]*ssa.Function{run}, l.pkgFuncs("provider/manifest")...) {
 			eachInstr(g, func(i ssa.Instruction) {
 				if st, isSt := i.(*ssa.Store); isSt && strings.HasSuffix(strings.ReplaceAll(Sym(st.Addr), "*", ""), "p:m.versions") && strings.HasPrefix(Sym(st.Val), "builtin.append(") {
 					ok = true
+					appends = append(appends, st)
 				}
 			})
 		}
 		c.Ob(rule, "version updates are appended to the version history", run.Pos(), ok, "updates are not remembered: a stale version would be expected")
+		// ... for every update received: the append sits in the select case that receives from updatech and no
+		// further condition inside that case guards it
+		okEvery := false
+		why := "no append inside the updatech case of the manager loop"
+		var pos = run.Pos()
+		for _, st := range appends {
+			var caseBlk *ssa.BasicBlock
+			for _, a := range factsAt(st.Block()) {
+				if a.Op != "eq" || a.If == nil {
+					continue
+				}
+				ex, isEx := a.X.(*ssa.Extract)
+				if !isEx || ex.Index != 0 {
+					continue
+				}
+				sel, isSel := ex.Tuple.(*ssa.Select)
+				k, isK := constInt(a.Y)
+				if !isSel || !isK || int(k) >= len(sel.States) || !strings.HasSuffix(strings.ReplaceAll(Sym(sel.States[k].Chan), "*", ""), "m.updatech") {
+					continue
+				}
+				caseBlk = a.If.Block().Succs[0]
+			}
+			if caseBlk == nil {
+				continue
+			}
+			okEvery = true
+			pos = st.Pos()
+			for _, a := range factsAt(st.Block()) {
+				if a.If != nil && (a.If.Block() == caseBlk || caseBlk.Dominates(a.If.Block())) {
+					okEvery = false
+					why = "the update is recorded only when " + a.Op + " " + short(Sym(a.X)) + ": updates arriving otherwise are forgotten and a superseded version stays expected"
+				}
+			}
+			if !strings.Contains(Sym(st.Val), "ssa.Select#") {
+				okEvery = false
+				why = "appended value " + short(Sym(st.Val)) + " is not the received update"
+			}
+		}
+		c.Ob(rule, "every received version update is recorded, unconditionally", pos, okEvery, why)
 	}
 
 }
